@@ -54,6 +54,10 @@ const (
 	midDur    = 80 * time.Millisecond
 	midSleep  = 130 * time.Millisecond
 	midGuard  = 40 * time.Millisecond
+	// staggered offers: how often, and for how long the best-ranked free
+	// workers stay away from their job channels
+	staggerPct = 40
+	staggerDur = 3 * time.Millisecond
 	hugeDur   = time.Hour
 	maxPeers  = 4
 	errOther  = "other"
@@ -300,24 +304,109 @@ func (c *caseRun) handleOffer(oc orderCall, quitting bool) {
 		c.doQuit()
 		return
 	}
-	resume()
+	// "free by the dispatcher's bookkeeping" is not "receiving on its job
+	// channel": a real worker that has just delivered a result needs a moment
+	// to get back to its idle select.  In a staggered offer the best-ranked
+	// free workers are in that state for a controlled moment while every
+	// worse-ranked free worker is already parked at its channel; the
+	// dispatcher must wait for the best-ranked one (or its exit).
+	score := map[int]uint64{}
+	for i, a := range oc.peers {
+		score[addrID(a)] = oc.scores[i]
+	}
+	var late, early []*workerT
+	if len(rest) >= 2 {
+		best := score[rest[0].id]
+		for _, w := range rest {
+			if score[w.id] < best {
+				best = score[w.id]
+			}
+		}
+		for _, w := range rest {
+			if score[w.id] == best {
+				late = append(late, w)
+			} else {
+				early = append(early, w)
+			}
+		}
+	}
+	if len(early) == 0 || c.rng.Intn(100) >= staggerPct {
+		late, early = nil, nil
+	}
+	var w *workerT
+	var job query.VerifJob
+	taken := false
+	if len(early) > 0 {
+		var ids []string
+		for _, lw := range late {
+			ids = append(ids, strconv.Itoa(lw.id))
+		}
+		c.emit("notrecv "+strings.Join(ids, " "), "-")
+		c.t.Hit("offer.best-ranked-not-yet-receiving")
+		type got struct {
+			w *workerT
+			j query.VerifJob
+		}
+		gotCh := make(chan got, len(early))
+		abort := make(chan struct{})
+		var wg sync.WaitGroup
+		for _, ew := range early {
+			ew := ew
+			wg.Add(1)
+			go func() {
+				defer wg.Done()
+				if j, ok := ew.w.Take(abort); ok {
+					gotCh <- got{ew, j}
+				}
+			}()
+		}
+		// let the takers park at their channels before the dispatcher goes on
+		for i := 0; i < 4; i++ {
+			runtime.Gosched()
+		}
+		time.Sleep(200 * time.Microsecond)
+		resume()
+		var g *got
+		select {
+		case x := <-gotCh:
+			g = &x
+		case <-time.After(staggerDur):
+		}
+		close(abort)
+		wg.Wait()
+		if g == nil {
+			select {
+			case x := <-gotCh:
+				g = &x
+			default:
+			}
+		}
+		if g != nil {
+			w, job, taken = g.w, g.j, true
+			c.t.Hit("offer.taken-by-worse-ranked")
+		}
+	} else {
+		resume()
+	}
 	if len(rest) == 0 {
 		return
 	}
-	// the dispatcher now blocks offering the head job to one of `rest`
-	cases := make([]reflect.SelectCase, 0, len(rest)+1)
-	for _, w := range rest {
-		cases = append(cases, reflect.SelectCase{Dir: reflect.SelectRecv, Chan: reflect.ValueOf(w.w.JobChan())})
+	if !taken {
+		// the dispatcher now blocks offering the head job to one of `rest`
+		cases := make([]reflect.SelectCase, 0, len(rest)+1)
+		for _, w := range rest {
+			cases = append(cases, reflect.SelectCase{Dir: reflect.SelectRecv, Chan: reflect.ValueOf(w.w.JobChan())})
+		}
+		cases = append(cases, reflect.SelectCase{Dir: reflect.SelectRecv, Chan: reflect.ValueOf(time.After(watchdog))})
+		i, v, _ := reflect.Select(cases)
+		if i == len(rest) {
+			c.emit("accept 0", c.hangObs())
+			c.hung = true
+			return
+		}
+		w = rest[i]
+		job = query.WrapJobValue(v.Interface())
 	}
-	cases = append(cases, reflect.SelectCase{Dir: reflect.SelectRecv, Chan: reflect.ValueOf(time.After(watchdog))})
-	i, v, _ := reflect.Select(cases)
-	if i == len(rest) {
-		c.emit("accept 0", c.hangObs())
-		c.hung = true
-		return
-	}
-	w := rest[i]
-	job := query.WrapJobValue(v.Interface())
 	w.held = &job
 	id, ok := c.reqs[job.Request()]
 	if !ok {
